@@ -38,7 +38,7 @@ def persist(pid, sec, text):
 
 CHECKS = [
  core("C01", "6/C01", "TLC exhaustively checks on the implementation-shaped tree model that every read equals the flat map of accepted writes and that errors change nothing (bounded universe); every edge of that graph is replayed into the real core with a full read-back after each step and random long histories are validated by TLC against the same spec."),
- core("C03", "6/C03", "TLC checks delivered events = expected events (reference layer: one event per touched matching key, in order, unique filter) and fold(snapshot, events) = pget for every interleaving of subscribe/unsubscribe with writes in the bounded universe; the same is validated on traces of the real core."),
+ core("C03", "6/C03", "TLC checks delivered events = expected events (reference layer: one event per touched matching key, in order, unique filter) and fold(snapshot, events) = pget for every interleaving of subscribe/unsubscribe with writes in the bounded universe; the same is validated on traces of the real core, and on socket sessions (subscribers subscribing and unsubscribing next to two writers; streams flushed by markers must be exactly what the specification delivers)."),
  core("C05", "6/C05", "TLC checks ls/pls = next segments of stored keys and last delivered ls-notification = current listing in every reachable state of the bounded universe; edge replay and random histories validated against the spec."),
  core("C06", "6/C06", "TLC checks one holder, first-come hand-over, exactly-once confirmation and session-end clean-up over all interleavings of lock/acquire/release/disconnect for 2-3 clients and 2 keys; traces of the real core validated."),
  core("C07", "6/C07", "TLC checks the session-end procedure (six ordered sub-steps) against the reference effect on the flat map, events of other subscribers and the frame condition; traces of the real core validated."),
@@ -52,8 +52,8 @@ CHECKS.append(persist("C10", "6/C10", "TLC explores every interleaving of mutati
 CHECKS += [
  session("C02", "6/C02", "TLC enumerates every interleaving of cget->cset cycles of 2-3 clients plus stale/future-version csets and plain sets on the contended key (one winner per version, no lost update, acceptance iff version matches via the reference layer); 2-4 unsynchronised real sessions run such cycles over the socket and TLC decides whether some atomic order of the requests explains every reply and the subscriber's event stream. Core histories around the largest version (imports put a key there; u64::MAX is mapped onto the top of the specification's integer range) are executed by the real core and validated against the core specification."),
  session("C13", "6/C13", "TLC checks on the session-layer model that every well-formed request on an established session gets exactly one terminal message of the kind the protocol assigns; real sessions send all message kinds of v0 and v1 with valid and invalid arguments, pipelined, 1-3 at a time; terminal messages are paired with requests by transaction id, their kind and content and every event stream are validated against the spec."),
- session("C15", "6/C15", "The containment of a requested pattern in a granted one is decided exhaustively: for every pair (legal grant, requested pattern) over {a,b,?,#} up to depth 3 (quick) / 4 (thorough) TLC checks that the transcription of auth::pattern_matches is sound (everything the requested pattern can reach is covered by the grant) and complete for keys, and the real function answers the same table (trace validated against the transcription). TLC checks the authorization gate, the refusal of requests outside the grants and that served requests touch only keys covered by the grants (documented relation); real sessions with minted tokens (valid grant sets, missing, garbage, forged, expired) mix authorised and unauthorised requests while an unrestricted observer reads the store back; validated by TLC."),
- session("C17", "6/C17", "The developers' debug assertions are state invariants of the core model (clean trees, never down) checked by TLC over every alphabet; offender sessions send odd requests in any order and a catalogue of undecodable lines while a witness session's round trips must keep being answered correctly (debug build; a panic of the core task is an observation the spec cannot explain)."),
+ session("C15", "6/C15", "The containment of a requested pattern in a granted one is decided exhaustively: for every pair (legal grant, requested pattern) over {a,b,?,#} up to depth 3 (quick) / 4 (thorough) TLC checks that the transcription of auth::pattern_matches is sound (everything the requested pattern can reach is covered by the grant) and complete for keys, and the real function answers the same table (trace validated against the transcription). TLC checks the authorization gate, the refusal of requests outside the grants and that served requests touch only keys covered by the grants (documented relation); real sessions with minted tokens (valid grant sets, missing, garbage, forged, expired) mix authorised and unauthorised requests while an unrestricted observer reads the store back; clients of the REST API carry tokens of their own on every request; validated by TLC."),
+ session("C17", "6/C17", "The developers' debug assertions are state invariants of the core model (clean trees, never down) checked by TLC over every alphabet; offender sessions send odd requests in any order and a catalogue of undecodable lines (and odd requests through the REST API) while a witness session's round trips must keep being answered correctly (debug build; a panic of the core task is an observation the spec cannot explain)."),
 ]
 
 c16 = core("C16", "6/C16", "TLC checks the aggregator step machine (flag, two ordered buffers, outstanding sleep tasks, one-slot tick channel, select! race) for every arrival sequence within the bounds: nothing lost, duplicated or reordered, no event older than the interval, a pending flush for every non-empty buffer, and (thorough) every event eventually sent under weak fairness; the real PStateAggregator runs on tokio's paused clock and TLC decides whether the recorded batches and their virtual send times are a behaviour of the spec. On live sessions (socket) aggregated pattern subscriptions run next to writers; what the subscriber receives must be, key by key, the event sequence the core specification delivers to that subscription (snapshot first, nothing lost, duplicated or reordered, one kind and no key twice per batch).")
